@@ -5,11 +5,13 @@ pub mod pool;
 pub mod refm;
 pub mod run;
 pub mod sched;
+pub mod c03;
 pub mod c04;
 pub mod c09;
 pub mod c10;
 pub mod c18;
 pub mod c19;
+pub mod c20;
 pub mod c22;
 pub mod c_engine;
 pub mod c_fd;
@@ -24,6 +26,7 @@ pub fn dispatch(id: &str, ctx: &mut ev::Ctx) -> bool {
     match id {
         "C01" => c01::run(ctx),
         "C02" => c02::run(ctx),
+        "C03" => c03::run(ctx),
         "C04" => c04::run(ctx),
         "C05" => c_engine::run_c05(ctx),
         "C06" => c_engine::run_c06(ctx),
@@ -35,6 +38,7 @@ pub fn dispatch(id: &str, ctx: &mut ev::Ctx) -> bool {
         "C17" => c_fd::run(ctx, "C17"),
         "C18" => c18::run(ctx),
         "C19" => c19::run(ctx),
+        "C20" => c20::run(ctx),
         "C22" => c22::run(ctx),
         _ => return false,
     }
